@@ -1,5 +1,6 @@
 # Licensed under a 3-clause BSD style license - see LICENSE.rst
 
+import locale
 import os
 
 from regions.core import Region, Regions
@@ -52,5 +53,8 @@ def _write_crtf(regions, filename, coordsys='fk5', fmt='.6f', radunit='deg',
 
     output = _serialize_crtf(regions, coordsys=coordsys, fmt=fmt,
                              radunit=radunit)
+    # fail before the file is opened (and truncated) if the text cannot
+    # be encoded
+    output.encode(locale.getpreferredencoding(False))
     with open(filename, 'w') as fh:
         fh.write(output)
